@@ -733,11 +733,11 @@ def open_args(modes, limits):
                      st.sampled_from(['write', 'write', 'exit', 'exit', 'abandon']), st.booleans())
 
 
-def history_strategy(tier: str, *, names, limits, archs, over_archs, max_size, singles, extra_cmds=(), name_pool=None):
+def history_strategy(tier: str, *, names, limits, archs, over_archs, max_size, singles, extra_cmds=(), name_pool=None, data=None):
     max_cmds = 12 if tier == 'quick' else 20
     sel = st.integers(0, 7)
     sp = st.integers(0, 2)
-    data = data_desc(max_size)
+    data = data_desc(max_size) if data is None else data
     modes = ['w', 'a', 'a', 'a', 'r']
     cmds = [
         # first alternative = the one the shrinker lowers commands to; it draws nothing else, so it can be deleted
@@ -765,6 +765,16 @@ def placement_strategy(tier: str):
     return history_strategy(
         tier, names=st.just(SIMPLE_NAMES), limits=LIMITS, archs=ARCHS + [DFLT], over_archs=ARCHS + [DFLT, DFLT],
         max_size=300 * 1024, singles=[False, False, True],
+    )
+
+
+def moves_strategy(tier: str):
+    """Few distinct sizes, few archives, small limits: files of equal stored length in different archives are then common, and
+    overwriting one of them INTO another file's archive (or the directory tail) must not disturb what is already there."""
+    same = st.tuples(st.sampled_from([24, 24, 24, 40, 8]), st.integers(0, 50)).map(list)
+    return history_strategy(
+        tier, names=st.just(SIMPLE_NAMES), limits=[0, 7], archs=[0, 1, None], over_archs=[0, 1, None, 1, 0],
+        max_size=64, singles=[False], data=same,
     )
 
 
@@ -1045,6 +1055,8 @@ SUBCHECKS = [
         must_hit=('fail:duplicate', 'fail:del_missing', 'fail:nonascii', 'fail:blocked_add', 'fail:blocked_over')),
     Sub('collide', execute_collide, strategy=collide_strategy, quick=400, thorough=8000, floor=30,
         quick_shards=2, thorough_shards=8, must_hit=('collide:over', 'collide:crc_of_empty')),
+    Sub('moves', execute_placement, strategy=moves_strategy, quick=1200, thorough=30000, floor=50,
+        quick_shards=4, thorough_shards=16, must_hit=('op:over', 'loc:numbered', 'loc:tail')),
     Sub('bigdir', execute_bigdir, strategy=bigdir_strategy, quick=48, thorough=1600, floor=10,
         quick_shards=8, thorough_shards=16, must_hit=('dirfile>8k', 'single', 'dir')),
 ]
